@@ -462,8 +462,9 @@ def run_property(prop_mod_name: str, tier: str, seed: int) -> int:
             wall_s=round(wall, 2),
             violations=len(violations),
         )
-        os.makedirs(os.path.join(VERIF, "evidence"), exist_ok=True)
-        with open(os.path.join(VERIF, "evidence", "%s.json" % prop), "w") as f:
+        evdir = os.environ.get("VERIF_EVIDENCE_DIR") or os.path.join(VERIF, "evidence")  # (sensitivity runs write elsewhere)
+        os.makedirs(evdir, exist_ok=True)
+        with open(os.path.join(evdir, "%s.json" % prop), "w") as f:
             json.dump(evidence, f, indent=1, sort_keys=True)
             f.write("\n")
 
